@@ -62,7 +62,7 @@ from kernel_translate import TranslateError, lex, strip_comments
 import ktx_misc
 from ktx_misc import P2
 
-LEAN_KEYWORDS = ktx_misc.LEAN_KEYWORDS | {"cnt", "fuel", "e"}
+LEAN_KEYWORDS = ktx_misc.LEAN_KEYWORDS | {"cnt", "fuel"}
 
 
 def REPO():
@@ -151,6 +151,31 @@ class PC(P2):
         if self.at("<"):                       # `<&[u8; 32]>::try_from`
             self.eat(); t = self.ty(); self.eat(">"); self.eat("::")
             return ("qpath", t, self.eat()[1])
+        if self.atid("match"):
+            self.eat(); scrut = self.expr_nostruct(); self.eat("{")
+            arms = []
+            while not self.at("}"):
+                if self.atid("_"):
+                    self.eat(); pat = None
+                else:
+                    pat = self.expr_nostruct()
+                self.eat("="); self.eat(">")
+                if self.at("{"):
+                    body = self.block_in_braces()
+                else:
+                    saved, self.nostruct = self.nostruct, 0
+                    e = self.expr()
+                    if self.at("=", "+=", "-=", "*=", "&=", "|=", "^=", "<<=", ">>="):      # `Greater => t = …,`
+                        op = self.eat()[1]; rhs = self.expr()
+                        body = [("assign", e, op, rhs)]
+                    else:
+                        body = [("ret", e)]
+                    self.nostruct = saved
+                if self.at(","):
+                    self.eat()
+                arms.append((pat, body))
+            self.eat("}")
+            return ("match", scrut, arms)
         if self.atid("return"):                # `None => return false,`
             self.eat()
             e = None
@@ -871,6 +896,7 @@ class Tr:
         self.loop_stack = []          # per enclosing loop body: set of rust names its recursion needs (captured + carried)
         self.struct_cache = {}
         self.idents = set()
+        self.spec_math = False
 
     # ------------------------------------------------------------------------------------------- types
     def const_usize(self, e):
@@ -1023,7 +1049,7 @@ class Tr:
         ty = v.ty
         if step[0] == "field":
             if ty.kind == "struct" and ty.limbs is not None and step[1] == "0":
-                return Val(v.t, Ty("limbs", ty.lean, name=ty.name, fields=ty.limbs, elem=ty.elem, n=len(ty.limbs)), v.at)
+                return v                               # `Fe(pub [u64; 5])`: the limbs ARE the structure
             if ty.kind == "bytes" and step[1] == "0":
                 return v                               # the field of an erased newtype (`SecretKey([u8; 32])`)
             if ty.kind != "struct":
@@ -1033,11 +1059,11 @@ class Tr:
                     return Val(f"{v.p()}.{lf}", fty, True)
             raise TranslateError(f"no field {step[1]} in {ty.name}")
         if step[0] == "elem":
-            if ty.kind == "limbs":
+            if ty.kind == "struct" and ty.limbs is not None:
                 n = self.lit_index(step[1])
-                if n is None or not (0 <= n < len(ty.fields)):
+                if n is None or not (0 <= n < len(ty.limbs)):
                     raise TranslateError("limb arrays need a literal index in range")
-                return Val(f"{v.p()}.{ty.fields[n]}", ty.elem, True)
+                return Val(f"{v.p()}.{ty.limbs[n]}", ty.elem, True)
             if ty.kind in ("bytes", "list"):
                 self.depth += 1
                 try:
@@ -1106,15 +1132,17 @@ class Tr:
         parent = self.read_place(pl, st, [], upto=len(pl.path) - 1)
         step = pl.path[-1]
         pty = parent.ty
-        if step[0] == "field":
+        if step[0] == "field" and step[1] == "0" and pty.kind == "struct" and pty.limbs is not None:
+            text = new
+        elif step[0] == "field":
             if pty.kind != "struct" or step[1] not in [f for f, _, _ in pty.fields]:
                 raise TranslateError(f"no field {step[1]}")
             lf = [lf for f, lf, _ in pty.fields if f == step[1]][0]
             text = f"{{ {parent.t} with {lf} := {new} }}"
         elif step[0] == "elem":
-            if pty.kind == "limbs":
+            if pty.kind == "struct" and pty.limbs is not None:
                 n = self.lit_index(step[1])
-                text = f"{{ {parent.t} with {pty.fields[n]} := {new} }}"
+                text = f"{{ {parent.t} with {pty.limbs[n]} := {new} }}"
             else:
                 text = f"{parent.p()}.{mode} {fn} {atomize(new)}"
         elif step[0] == "slice":
@@ -1129,9 +1157,6 @@ class Tr:
         else:
             raise TranslateError("internal: write step")
         up = pl.path[:-1]
-        if up and up[-1][0] == "field" and up[-1][1] == "0" and self.read_place(pl, st, [], upto=len(up) - 1).ty.kind == "struct" \
-                and self.read_place(pl, st, [], upto=len(up) - 1).ty.limbs is not None:
-            up = up[:-1]                   # `x.0[k] = v`: the limbs ARE the structure
         self.write_place(Place(pl.root, up), text, st, pre)
 
     # ------------------------------------------------------------------------------------------- expressions
@@ -1387,8 +1412,16 @@ class Tr:
             raise TranslateError(f"operator {op} on i8")
         # usize / u64 / u32 as Nat
         hi_ty = INT_RANGE[rust][1]
+        if rust == "u64" and op in ("+", "-", "*"):
+            safe = {"+": ah + bh <= hi_ty, "*": ah * bh <= hi_ty, "-": al >= bh}[op]
+            if not safe:                               # CHECKED limb arithmetic: the models' `add64` / `sub64` / `mul64`
+                t = hint or self.tmp()
+                fn = {"+": "add64", "-": "sub64", "*": "mul64"}[op]
+                pre.append(lambda body: Bind(t, f"{fn} {a.p()} {b.p()}", body))
+                iv = {"+": (al + bl, min(ah + bh, hi_ty)), "*": (al * bl, min(ah * bh, hi_ty)), "-": (max(al - bh, 0), ah - bl)}[op]
+                return Val(t, a.ty, True, iv)
         if op == "+":
-            if ah + bh > hi_ty:
+            if ah + bh > hi_ty and not self.spec_math:
                 raise TranslateError(f"`+` on {rust}: the interval analysis cannot exclude overflow")
             return Val(f"{a.p()} + {b.p()}", a.ty, False, (al + bl, ah + bh), lit=(a.lit + b.lit if a.lit is not None and b.lit is not None else None))
         if op == "*":
@@ -1603,7 +1636,7 @@ class Tr:
         owner = None
         if len(segs) >= 2 and (segs[-2][:1].isupper()):
             owner = self.resolve_owner(segs[-2])
-        ext = self.prog.ext.get((owner, segs[-1]))
+        ext = getattr(self.spec, "local_ext", {}).get((owner, segs[-1])) or self.prog.ext.get((owner, segs[-1]))
         if ext is None:
             raise TranslateError(f"unknown function {path}")
         v = self.call_ext(ext, None, args, st, pre, hint)
@@ -1713,9 +1746,9 @@ class Tr:
                     pre = []
                     v = self.ex(e, st, pre, None)
                     return self.wrap(pre, kv(st, v))
-                return self.do_branch(self.if_arms(e, st), stmts, i, st, ctx, k, kv)
+                return self.do_branch(self.if_arms(e, st), stmts, i, st, ctx, k, kv, value_pos=(kind == "ret" and last))
             if e[0] == "match":
-                return self.do_branch(self.match_arms(e, st), stmts, i, st, ctx, k, kv)
+                return self.do_branch(self.match_arms(e, st), stmts, i, st, ctx, k, kv, value_pos=(kind == "ret" and last))
             if e[0] == "blockexpr":
                 return self.do_block(e[1], st, ctx, rest if not (kind == "ret" and last) else k, kv if last else self.no_value)
             if e[0] == "macro":
@@ -1900,9 +1933,13 @@ class Tr:
                     if static:
                         x = self.tmp()
                         st3 = st.with_var("$cur", Var(tyl, x)).with_var("$rhs", Var(rv.ty, rv.t, rv.iv))
-                        v = self.ex(("bin", op[:-1], ("path", "$cur"), ("path", "$rhs")), st3, pre, tyl)
-                        self.write_place(pl, f"(fun {x} => {v.t})", st, pre, mode="modify", fn=str(k))
-                        return self.wrap(pre, rest(st))
+                        sub = []
+                        saved = self.ntmp
+                        v = self.ex(("bin", op[:-1], ("path", "$cur"), ("path", "$rhs")), st3, sub, tyl)
+                        if not sub:
+                            self.write_place(pl, f"(fun {x} => {v.t})", st, pre, mode="modify", fn=str(k))
+                            return self.wrap(pre, rest(st))
+                        self.ntmp = saved              # a CHECKED operation: read the element, compute, store
                     cur = self.read_place(pl, st, pre)
                     st3 = st.with_var("$cur", Var(tyl, cur.t, cur.iv)).with_var("$rhs", Var(rv.ty, rv.t, rv.iv))
                     v = self.ex(("bin", op[:-1], ("path", "$cur"), ("path", "$rhs")), st3, pre, tyl)
@@ -2088,7 +2125,7 @@ class Tr:
                          (None, body["Equal"])]
         raise TranslateError("unsupported `match`")
 
-    def do_branch(self, desc, stmts, i, st, ctx, k, kv, let=None):
+    def do_branch(self, desc, stmts, i, st, ctx, k, kv, let=None, value_pos=False):
         pre, arms = desc
         more = i + 1 < len(stmts)
         blocks = [b for _, b in arms]
@@ -2107,14 +2144,27 @@ class Tr:
                 return arm_node(blk, st2)
             return sp(st2, lambda s3: arm_node(blk, s3), lambda s3: chain(j + 1, s3, arm_node))
 
+        if value_pos and not esc and let is None and self.ret_ty is not None and self.ret_ty.kind != "unit" and not self.loop_stack:
+            # the trailing VALUE of the function: every arm ends in its own result
+            def arm_node(blk, s3):
+                return self.do_block(blk, s3, ctx, k, kv)
+            return self.wrap(pre, chain(0, st.copy(), arm_node))
         if not esc:
             # ONE monadic value: the tuple of the outer variables the arms assign (+ the value of a branching `let`)
-            names = []
-            for _, blk in arms:
-                for n in self.assigned_in(blk, st):
-                    if n not in names:
-                        names.append(n)
-            names = [n for n in st.env if n in names]
+            found = set()
+
+            def probe_arm(blk, s3):
+                entry = dict(s3.env)
+
+                def rec(s4, *a):
+                    for n in st.env:
+                        cur = s4.env.get(n)
+                        if cur is not None and cur is not entry.get(n) and not cur.dead:
+                            found.add(n)
+                    return Ret("?")
+                return self.do_block(blk, s3, Ctx(lambda s4, v: rec(s4), lambda s4: rec(s4)), rec, rec)
+            self.scratch(lambda: chain(0, st.copy(), probe_arm))
+            names = [n for n in st.env if n in found]
             uninit = [n for n in names if not st.env[n].init]
             if uninit:
                 raise TranslateError(f"variable {uninit[0]} initialised in a branch")
@@ -2256,6 +2306,11 @@ class Tr:
         if rev:
             raise TranslateError("`.rev()` of a non-range iterator")
         if it0[0] == "method" and it0[2] in ("iter", "iter_mut") and not it0[3]:
+            pl = self.place(it0[1], st)
+            if pl is not None:
+                tv = self.probe_place(pl, st)
+                if tv.ty.kind == "struct" and tv.ty.limbs is not None:
+                    return self.do_for_limbs(var, pl, tv.ty, it0[2] == "iter_mut", body, st, ctx, rest)
             return self.do_for_list(var, it0[1], it0[2] == "iter_mut", body, st, ctx, rest)
         raise TranslateError("unsupported `for` iterator")
 
@@ -2286,6 +2341,8 @@ class Tr:
         cnt = "cnt"
         while cnt in {v.lean for v in bst.env.values()}:
             cnt += "_"
+        if rev and lo.lit == 0:
+            cnt = ivar                      # `for p in (0..hi).rev()`: the iterations still to do ARE the loop variable
 
         def again(s2):
             if rev:
@@ -2300,7 +2357,7 @@ class Tr:
         if rev and not (lo.lit == 0):
             bnode = Let(ivar, f"{lo.p()} + {cnt}", bnode)
         ctys = [st.env[n].ty.lean for n in carried]
-        self.aux.append(("for", lname, ptext, dict(cnt=(ivar if rev and lo.lit == 0 else cnt), var=ivar, rev=rev, heads=head_names, ctys=ctys,
+        self.aux.append(("for", lname, ptext, dict(cnt=cnt, var=ivar, rev=rev, heads=head_names, ctys=ctys,
                                                     rty=self.tuple_ty(carried, st), ctuple=self.tuple_text(carried, st), body=bnode)))
         if lo.lit is not None and hi.lit is not None:
             if hi.lit < lo.lit:
@@ -2315,6 +2372,30 @@ class Tr:
         ctuple = self.tuple_text(carried, st)
         self.after_loop(st, carried, late)
         return self.wrap(pre, AuxBind(ctuple, call, rest(st)))
+
+    def do_for_limbs(self, var, pl, sty, mutating, body, st, ctx, rest):
+        """`for e in x.0.iter_mut() { … }` over the five limbs of a field element / scalar: unrolled"""
+        if escapes(body):
+            raise TranslateError("`break`/`return` in a loop over limbs")
+
+        def step(k, s2):
+            if k == len(sty.limbs):
+                return rest(s2)
+            cur = self.read_place(pl, s2, [])
+            saved = s2.env.get(var)
+            lean = self.declare(var, sty.elem, s2)
+
+            def after(s3):
+                pre = []
+                if mutating:
+                    self.write_place(Place(pl.root, pl.path + [("elem", ("lit", k, None))]), s3.env[var].lean, s3, pre)
+                if saved is None:
+                    del s3.env[var]
+                else:
+                    s3.env[var] = saved
+                return self.wrap(pre, step(k + 1, s3))
+            return Let(lean, f"{cur.p()}.{sty.limbs[k]}", self.seq(body, 0, s2, Ctx(ctx.ret, None), after, self.no_value))
+        return step(0, st)
 
     def do_for_list(self, var, target, mutating, body, st, ctx, rest):
         pre = []
@@ -2402,7 +2483,11 @@ class Tr:
             raise TranslateError("statements after a `loop` without `break` (dead code)")
         # the fuel expression is Rust syntax over the variables at the loop head
         fpre = []
-        fv = self.ex(PC(lex(fuel_src)).expr(), st, fpre, TInt("usize"))
+        self.spec_math = True                  # the fuel is a mathematical (spec-level) expression, not Rust arithmetic
+        try:
+            fv = self.ex(PC(lex(fuel_src)).expr(), st, fpre, TInt("usize"))
+        finally:
+            self.spec_math = False
         if fpre:
             raise TranslateError("fuel expression with a check")
         after = st.copy()
@@ -2579,7 +2664,60 @@ def translate_const(spec: Fn):
             f"def {spec.lean_name} : {ty.lean} := {v.t}\n")
 
 
+def translate_limb_loop(spec: Fn):
+    """kind "limb_loop": `let Fe([mut r0, …, mut r4]) = *self; for _ in 0..n { BODY } Fe([r0, …, r4])` where BODY is limb
+    arithmetic tied by an existing kernel (`spec.body_kernel`: one iteration, Fe -> Option Fe, translated from the SAME loop body by
+    tools/kernel_translate.py).  Here the SKELETON is checked and translated: the destructuring, the loop bounds, that the body
+    assigns nothing but the five registers and its own `let`s, the result expression."""
+    tr = Tr(spec)
+    hdr, body = find_fn_unique(tr.src, spec.fn, spec.scope)
+    name, params, ret = parse_sig(hdr)
+    if [p[0] for p in params] != ["self", "n"] or params[0][2] != "val" or tr.conv(params[1][1]).key() != "usize":
+        raise TranslateError("limb_loop: unexpected signature")
+    sty = tr.conv("Self")
+    if ret is None or not tr.conv(ret).same(sty) or sty.limbs is None:
+        raise TranslateError("limb_loop: unexpected return type")
+    stmts = PC(lex(body)).block()
+    if len(stmts) != 3 or stmts[0][0] != "let" or stmts[1][0] != "for" or stmts[2][0] != "ret":
+        raise TranslateError("limb_loop: the body is not `let …; for … { … } result`")
+    pat, init = stmts[0][1], stmts[0][3]
+    flat = pat[1] if pat[0] == "tuple" else None
+    while flat is not None and len(flat) == 1 and flat[0][0] == "tuple":
+        flat = flat[0][1]
+    if flat is None or len(flat) != len(sty.limbs) or any(x[0] != "var" for x in flat) or strip(init) != ("path", "self"):
+        raise TranslateError("limb_loop: the registers are not the limbs of `*self`")
+    regs = [x[1] for x in flat]
+    fpat, it, fbody = stmts[1][1], strip(stmts[1][2]), stmts[1][3]
+    if fpat != ("var", "_") or it[0] != "range" or it[1] != ("lit", 0, None) or it[2] != ("path", "n") or (len(it) == 4 and it[3] != ".."):
+        raise TranslateError("limb_loop: the loop is not `for _ in 0..n`")
+    local = set()
+    for st_ in fbody:
+        if st_[0] == "let" and st_[1][0] == "var":
+            local.add(st_[1][1])
+        elif st_[0] == "assign" and st_[1][0] == "path" and (st_[1][1] in regs or st_[1][1] in local):
+            pass
+        else:
+            raise TranslateError("limb_loop: the loop body has a statement that is not register arithmetic")
+    r = strip(stmts[2][1])
+    ok = r[0] == "call" and r[1][0] == "path" and r[1][1] in (spec.owner, "Self") and len(r[2]) == 1 and r[2][0][0] == "array" \
+        and [x for x in r[2][0][1]] == [("path", g) for g in regs]
+    if not ok:
+        raise TranslateError("limb_loop: the result is not the registers in order")
+    base = spec.lean_name[:-4]
+    return (f"/-- `for _ in 0..n` of `fn {spec.fn}`: `cnt` iterations (one iteration = the limb kernel `{spec.body_kernel}`) -/\n"
+            f"def {base}_loop1_src : Nat → {sty.lean} → Option {sty.lean}\n"
+            f"  | 0, f => pure f\n"
+            f"  | cnt + 1, f => do\n"
+            f"    let f ← {spec.body_kernel} f\n"
+            f"    {base}_loop1_src cnt f\n\n"
+            f"/-- {spec.doc + ' — ' if spec.doc else ''}GENERATED from `fn {spec.fn}` in {spec.file} -/\n"
+            f"def {spec.lean_name} (self : {sty.lean}) (n : Nat) : Option {sty.lean} := do\n"
+            f"  {base}_loop1_src n self\n")
+
+
 def translate(spec: Fn):
     if spec.kind == "const":
         return translate_const(spec)
+    if spec.kind == "limb_loop":
+        return translate_limb_loop(spec)
     return Tr(spec).translate()
